@@ -276,3 +276,21 @@ func specialRPoints() []namedPt {
 	}
 	return out
 }
+
+// glvSteered draws a scalar from the GLV decomposition's rare windows (either
+// cube root of unity as lambda).
+func glvSteered(r *gen.Rng) (*big.Int, string) {
+	n := bigN
+	lam := oracle.Lambda
+	if r.Bool() {
+		lam = oracle.MulM(lam, lam, n)
+	}
+	glvOnce.Do(func() {
+		glvByLambda = map[string]*glvConsts{}
+		l2 := oracle.MulM(oracle.Lambda, oracle.Lambda, n)
+		glvByLambda[oracle.Lambda.String()] = deriveGLV(oracle.Lambda)
+		glvByLambda[l2.String()] = deriveGLV(l2)
+	})
+	v, cl := glvScalar(r, glvByLambda[lam.String()], lam)
+	return v, "glv:" + cl
+}
